@@ -251,6 +251,10 @@ func NewRun(prop string, seed int64, tier string) (*Trace, *Gen) {
 		}
 		t.Flags = append(t.Flags, "bigreg")
 	}
+	if prop == "C02" && g.pct(3) {
+		k.UnbackedLocked = pick(r, []string{"1", "123456789", "1000000000000000000000"})
+		t.Flags = append(t.Flags, "unbacked-genesis")
+	}
 	k.GovSecs = int64(10 + r.Intn(50))
 	if g.Flags["huge"] {
 		k.Balance = "10000000000000000000000000000000000000000" // 10^40
